@@ -18,7 +18,7 @@ from typing_extensions import TypeGuard, TypeAlias
 from .convert import DataType, Convertible, IntoConverter, make_converter, into_data, ConverterHandlers
 from .util import list_phrase, pluralize, flatten_union_args, type_union, KW_ONLY
 from .errors import ConvertError, ParseInterrupt, WrongTypeError, ConditionFailedError
-from .errors import ErrorNode, SumErrorNode, ProductErrorNode
+from .errors import ErrorNode, SumErrorNode, ProductErrorNode, _show
 
 
 T_co = t.TypeVar('T_co', covariant=True)
@@ -674,9 +674,9 @@ class DictConverter(t.Generic[FromDataK, FromDataV], Converter[t.Mapping[FromDat
         nodes: _ProductErrorChildren = {}
         for (k, v) in val.items():
             if (node := self.k_conv.collect_errors(k)) is not None:
-                nodes[str(k)] = node  # TODO split bad fields from bad values
+                nodes[_show(k)] = node  # TODO split bad fields from bad values
             if (node := self.v_conv.collect_errors(v)) is not None:
-                nodes[str(k)] = node
+                nodes[_show(k)] = node
         if len(nodes):
             return ProductErrorNode(self.expected(), nodes, val)
         # try to construct val
